@@ -189,7 +189,7 @@ func (e *Enc) instrEffect(in ssa.Instruction, ef *effect) {
 			if c.Method.Pkg() != nil && ufIfacePkgs[c.Method.Pkg().Path()] {
 				return
 			}
-			if e.db.pureIface[ifaceMethodKey(c.Method)] {
+			if e.db.isPureIface(c.Method) {
 				return
 			}
 			ef.all = true
@@ -211,6 +211,10 @@ func (e *Enc) instrEffect(in ssa.Instruction, ef *effect) {
 			}
 		case *ssa.Function:
 			if e.db.pureFns[callee.String()] {
+				return
+			}
+			if rt := e.db.recvOnlyType(callee); rt != nil {
+				namesOfType(rt, ef.names)
 				return
 			}
 			if op, ok := headerOps[callee.String()]; ok {
@@ -291,7 +295,7 @@ func newEnc(prog *ssa.Program, fn *ssa.Function, db *ContractDB) *Enc {
 	return &Enc{prog: prog, fn: fn, db: db, con: db.byFunc[fname(fn)], declared: map[string]bool{},
 		vals: map[ssa.Value]*Val{}, locs: map[ssa.Value]*Loc{}, endState: map[*ssa.BasicBlock]State{},
 		reach: map[*ssa.BasicBlock]string{}, kindN: map[string]int{}, tags: map[string]int{},
-		params: map[string]*Val{}, effects: map[*ssa.Function]*effect{}, ranges: map[*ssa.Range]*rangeInfo{}, freeRef: map[string]*Val{}, merges: map[int]*mergeInfo{}, preserved: map[int]*preserveInfo{}, pendingFrame: map[string]string{}, pendingOld: map[string]string{}, dyn: map[ssa.Value]types.Type{}, ghostSites: map[string]bool{}, siteResults: map[string]*Val{}, lastOrd: map[string]int{}}
+		params: map[string]*Val{}, effects: map[*ssa.Function]*effect{}, ranges: map[*ssa.Range]*rangeInfo{}, freeRef: map[string]*Val{}, merges: map[int]*mergeInfo{}, preserved: map[int]*preserveInfo{}, pendingFrame: map[string]string{}, pendingOld: map[string]string{}, birth: map[string][2]string{}, dyn: map[ssa.Value]types.Type{}, ghostSites: map[string]bool{}, siteResults: map[string]*Val{}, lastOrd: map[string]int{}}
 }
 
 var reachedRe = regexp.MustCompile(`reached\("([^"]+)"\)`)
@@ -741,9 +745,11 @@ func (e *Enc) block(b *ssa.BasicBlock) {
 		e.reach[b] = r
 		st = e.mergeStates(b, fwd)
 	}
+	e.stampBirth(&st)
 	li := e.loops[b]
 	if li != nil {
 		e.loopHeader(b, li, fwd, &st)
+		e.stampBirth(&st)
 	}
 	for _, in := range b.Instrs {
 		if phi, ok := in.(*ssa.Phi); ok {
@@ -769,6 +775,7 @@ func (e *Enc) block(b *ssa.BasicBlock) {
 			delete(st.unesc, a)
 		}
 		e.instr(in, &st)
+		e.stampBirth(&st)
 	}
 	e.endState[b] = st
 	// back edges: invariant preservation
@@ -1139,7 +1146,14 @@ func (e *Enc) loopHeader(b *ssa.BasicBlock, li *loopInfo, fwd []*ssa.BasicBlock,
 			e.assume(fmt.Sprintf("(forall ((r Ref)) (! (=> (not %s) (= (select %s r) (select %s r))) :pattern ((select %s r))))", or(mine...), nw, old, nw))
 		}
 	}
-	// the allocation watermark only grows
+	// the allocation watermarks only grow
+	{
+		old := e.calleeWatermark(st)
+		nw := e.fresh("cw.loop", "Int")
+		e.assume(app(">=", nw, old))
+		arrSorts["G|cw"] = "Int"
+		st.m["G|cw"] = nw
+	}
 	{
 		old := e.watermark(st)
 		nw := e.fresh("wm.loop", "Int")
